@@ -16,6 +16,7 @@ mod props;
 mod rng;
 mod scenario;
 mod sched;
+mod seq;
 
 use exec::{RunOutput, Violation};
 use rng::{hash_bytes, mix, Rng};
@@ -109,7 +110,7 @@ fn install_panic_hook() {
         let (file, line) = info.location().map(|l| (l.file().to_string(), l.line())).unwrap_or_default();
         let task = simsync::sim::current_task();
         let role = match task {
-            Some(0) => "main".to_string(),
+            Some(0) => "caller".to_string(),
             Some(t) => simsync::sim::role_of(t).map(|r| r.name().to_string()).unwrap_or_else(|| "caller".to_string()),
             None => "engine".to_string(),
         };
@@ -303,6 +304,11 @@ fn finish_run(sh: &mut Shared) {
 
     if let Some(rf) = &sh.replay_mode {
         let _ = rf;
+        if std::env::var("SIM_DUMP").is_ok() {
+            for (i, it) in out.log.iter().enumerate() {
+                eprintln!("{:5} {}", i, serde_json::to_string(it).unwrap_or_default());
+            }
+        }
         sh.replay_result = Some((verdict.violations.clone(), hh, rec.diverged.clone()));
         sh.rerecord = Some((sc.clone(), rec.clone()));
         sh.stop = true;
@@ -551,6 +557,11 @@ fn cmd_run(args: &[String]) -> i32 {
     let tree = arg(args, "--tree").unwrap_or("unknown").to_string();
     let digests = args.iter().any(|a| a == "--digests");
     let only_stratum = arg(args, "--stratum").map(|s| s.to_string());
+    let known_list = load_known(&known_path);
+    props::set_open(known_list.iter().filter(|k| k.status == "open").map(|k| k.id.clone()));
+    if let Some(ids) = arg(args, "--assume-open") {
+        props::set_open(ids.split(',').filter(|s| !s.is_empty()).map(|s| s.to_string()));
+    }
     let mut strata = props::plan(&property);
     if let Some(name) = only_stratum {
         strata.retain(|s| s.name == name);
@@ -571,7 +582,7 @@ fn cmd_run(args: &[String]) -> i32 {
         next: from,
         strata,
         total_share,
-        known: load_known(&known_path),
+        known: known_list,
         replays_dir,
         tree,
     };
